@@ -301,6 +301,18 @@ func c09Check(cs c09Case) (out core.Outcome, applicable bool, remote int) {
 		if a, b := identPaths(df), identPaths(df2); strings.Join(a, " ") != strings.Join(b, " ") {
 			return fail("from-package-decorator-differs", "NewDecoratorFromPackage annotates differently from NewDecoratorWithImports(gotypes.New(Uses)):\n%v\n%v", a, b)
 		}
+		// and a Decorator configured through its exported fields (the documented alternative to the constructor)
+		dec3 := decorator.NewDecorator(chk.Fset)
+		dec3.Path = c09Locals[cs.Local].Given
+		dec3.Resolver = gotypes.New(chk.Info.Uses)
+		var df3 *dst.File
+		var err3 error
+		if p := guard(func() { df3, err3 = dec3.DecorateFile(af) }); p != "" || err3 != nil {
+			return fail("field-configured-decorator-fails", "NewDecorator + Path + Resolver: panic %q error %v", p, err3)
+		}
+		if a, b := identPaths(df), identPaths(df3); strings.Join(a, " ") != strings.Join(b, " ") {
+			return fail("field-configured-decorator-differs", "a Decorator configured through its Path and Resolver fields annotates differently from NewDecoratorWithImports:\n%v\n%v", a, b)
+		}
 	}
 	// expected path per ast identifier
 	want := map[*ast.Ident]string{}
